@@ -86,7 +86,7 @@ type tracer struct {
 }
 
 var slimKeep = map[string]bool{"Begin": true, "Base": true, "Hk": true, "Quiesce": true, "CReg": true, "End": true,
-	"Unwind": true, "Leak": true, "Wedged": true, "Crash": true, "Fault": true, "Unfault": true, "Note": true, "Stuck": true}
+	"Unwind": true, "Leak": true, "Wedged": true, "Crash": true, "Fault": true, "Unfault": true, "Note": true, "Stuck": true, "Mismatch": true}
 
 var tr = &tracer{}
 
